@@ -130,4 +130,9 @@ theorem C02_zip_owner_roundtrip (uid gid : Nat) (hu : uid < 2 ^ 32) (hg : gid < 
     zipOwnership (ownerExtra uid gid) = .ok uid gid :=
   zipOwnership_written uid gid hu hg
 
+/-- and a foreign archive that carries only the older Unix2 block (16-bit ids) is read as that pair too -/
+theorem C02_zip_owner_unix2_only (uid gid : Nat) (hu : uid < 65536) (hg : gid < 65536) :
+    zipOwnership (unix2Extra uid gid) = .ok uid gid :=
+  zipOwnership_unix2_only uid gid hu hg
+
 end Rio
